@@ -271,6 +271,9 @@ def operands(group_and):
         (u"(bravo ANDMAYBE charlie)", W(u"bravo")), (u"(charlie REQUIRE g:x)", lambda d, m: W(u"charlie")(d, m) and u"x" in d[2].split()),
         (u"k:'d0'", F(lambda d: d[0] == u"d0")), (u"ng:rav", F(lambda d: any(u"rav" in t for t in toks(d)))),
         (u"(t:alto OR NOT g:x)", F(lambda d: u"alto" in toks(d) or u"x" not in d[2].split())),
+        # a field group with a nested parenthesised group: the field applies to every unprefixed clause inside
+        (u"g:(x (y OR z))", F(lambda d: grp(u"x" in d[2].split(), u"y" in d[2].split() or u"z" in d[2].split()))),
+        (u"g:(NOT (x OR t:alto))", F(lambda d: not (u"x" in d[2].split() or u"alto" in toks(d)))),
     ]
 
 
